@@ -238,7 +238,8 @@ class Run:
             e.update(env)
         p = subprocess.run([binp] + args, env=e, capture_output=True, text=True, timeout=timeout)
         if p.returncode not in ok_codes:
-            raise Infra("harness %s failed: %s" % (args[0], p.stderr[-2000:]))
+            err = p.stderr if len(p.stderr) < 6000 else p.stderr[:3000] + "\n[...]\n" + p.stderr[-3000:]
+            raise Infra("harness %s failed (exit %d): %s" % (args[0], p.returncode, err))
         return p.stdout
 
     def add_samples(self, path, n=3):
